@@ -34,6 +34,8 @@ func c07BaseItem(r *rand.Rand, bystanders int) val.Item {
 		"ns": val.NS("1", "2", "3"),
 		"bs": val.BS("a", "b"),
 		"l2": val.List(val.Str("x")),
+		// a list whose elements are the values some code might take for "nothing"
+		"lnul": val.List(val.Null(), val.Str("a"), val.Null(), val.Bool(false), val.Str(""), val.List(), val.Map(map[string]val.V{})),
 		// attributes that EXIST with a value some code might take for "nothing": NULL, false, empty string / list / map
 		"znull":  val.Null(),
 		"zfalse": val.Bool(false),
@@ -244,6 +246,15 @@ var c07RHS = []rhsGen{
 		v[":z"] = val.Num("7")
 		return &refmodel.UExpr{Kind: "plus", Kids: []*refmodel.UExpr{{Kind: "ifne", Path: pth("n"), Kids: []*refmodel.UExpr{uv(":d")}}, {Kind: "ifne", Path: pth("cnt"), Kids: []*refmodel.UExpr{uv(":z")}}}}
 	}},
+	{"append-nulls-pv", func(v val.Item) *refmodel.UExpr {
+		v[":a"] = val.List(val.Null(), val.Str("tail"), val.Null())
+		return &refmodel.UExpr{Kind: "append", Kids: []*refmodel.UExpr{up(pth("lnul")), uv(":a")}}
+	}},
+	{"append-nulls-vp", func(v val.Item) *refmodel.UExpr {
+		v[":a"] = val.List(val.Bool(false), val.Null(), val.Str(""))
+		return &refmodel.UExpr{Kind: "append", Kids: []*refmodel.UExpr{uv(":a"), up(pth("lnul"))}}
+	}},
+	{"copy-list-with-nulls", func(v val.Item) *refmodel.UExpr { return up(pth("lnul")) }},
 	{"append-nonlist", func(v val.Item) *refmodel.UExpr {
 		v[":a"] = val.List(val.Str("x"))
 		return &refmodel.UExpr{Kind: "append", Kids: []*refmodel.UExpr{up(pth("s")), uv(":a")}}
